@@ -10,13 +10,18 @@ on the source (no module-level mutable state in the equilibrium densities, the t
 Both predicates are also evaluated over the AMPLITUDE and DURATION regimes (coefficients and theta0 from 1e-12 to 1e12, phi = 0, epochs from a
 fraction of a step to hundreds of steps reaching stationarity, reference sizes 1e-3 .. 1e3; d = 1..5, both drivers, whole models), a few of
 them also through the correspondence with the model; a broken translator obligation triggers a targeted search there: c03_regimes.py.
+Both predicates, the result of the canonical call and the integrity of the caller's objects are required for every spelling of the arguments the
+unchanged library accepts (python int / bool / numpy integer / float32 / 0-d scalars, list / tuple / masked / strided / reversed / Fortran-ordered
+containers, positional / keyword / defaulted arguments, the same objects handed over twice), enumerated on every run for the equilibrium densities,
+the integrators, the mutation influx, the time step and whole models; a few typed driver calls also go through the correspondence with the
+model; a broken obligation triggers a targeted search there too: c03_types.py.
 """
 import json, math
 from fractions import Fraction
 from harness import lib, numgen
 from harness.lib import q
 from harness.numgen import HEADER
-from harness.props import c02, c02_translate, c03_orders, c03_regimes
+from harness.props import c02, c02_translate, c03_orders, c03_regimes, c03_types
 
 TOL = Fraction(1, 10 ** 9)
 
@@ -96,6 +101,10 @@ def run(ctx):
             ctx.rule = 'replay of the recorded call sequence'
             c03_orders.replay(ctx, inp)
             return
+        if isinstance(inp, dict) and 'types' in inp:         # a recorded argument-type / container / layout violation: exactly those calls again
+            ctx.rule = 'replay of the recorded calls of an argument-type violation'
+            c03_types.replay(ctx, inp)
+            return
         if isinstance(inp, dict) and 'regime' in inp:        # a recorded amplitude / duration regime violation: exactly those calls again
             ctx.rule = 'replay of the recorded calls of an amplitude / duration regime violation'
             c03_regimes.replay(ctx, inp)
@@ -147,6 +156,8 @@ def run(ctx):
     cases += rcorr
     for i, c in enumerate(cases):
         c['id'] = i
+    # the argument types / containers / layouts of every entry point (c03_types.py): started here, accounted for below
+    types = c03_types.start(ctx)
     # the amplitude / duration regimes of both predicates (c03_regimes.py): started here, accounted for below
     regimes = c03_regimes.start(ctx)
     # the same predicates on sequences of calls in one process, in adversarial orders (c03_orders.py): started here, accounted for below
@@ -203,12 +214,26 @@ def run(ctx):
     # --- correspondence: the rescaled cases against the model
     sel = [cases[mi] for bi, members in groups for k, mi in members[:1] if '_out' in cases[mi]]
     sel += [cases[i] for i in rcorr_idx if '_out' in cases[i]]
+    # typed driver calls (whole values handed over as python int / numpy integer / bool ...): the real call is made by c03_impl_types.py
+    tcorr = c03_types.corr_cases(ctx)
+    tres = lib.run_impl('c03_impl_types.py', [dict(c, kind='driver') for c, _ in tcorr], timeout=1800)
+    for k, ((c, desc), r) in enumerate(zip(tcorr, tres)):
+        c['id'] = len(cases) + k; c['_typed'] = desc
+        if 'error' in r or not c02.finite(r.get('res', [float('nan')])):
+            ctx.obligation('typed driver case runs: %s' % desc[:200], False, 'correspondence', r.get('error', 'non-finite'))
+            ctx.violation('%s failed: %s' % (desc, r.get('error', 'non-finite output')), data={'types': {'calls': [dict(c03_types.strip(c), kind='driver')], 'check': {'kind': 'runs', 'idx': [0]}, 'descs': [desc], 'accepts': ['same']}})
+            continue
+        c['_out'] = r['res']
+        sel.append(c)
     exprs = [(c['id'], c02.coq_dcase(c, c['_out'])) for c in sel]
     results = ctx.coq_cases('driver', HEADER, exprs, '(dcheck %s)' % q(TOL), 'rel 1e-09 of max|phi|', shard=ctx.pick(4, 8), timeout=1800)
     for c in sel:
         rr = results.get(c['id'])
         ok = rr is not None and rr[0]
         label = ('regime driver case %d (%d pops, %s)' % (c['id'], len(c['shape']), c['_regime'])) if '_regime' in c else 'rescaled driver case %d (%d pops)' % (c['id'], len(c['shape']))
+        if '_typed' in c:
+            label = 'typed driver case %d (%s)' % (c['id'], c['_typed'][:160])
+            ctx.count('correspondence with the model: typed driver call')
         if '_regime' in c:
             ctx.count('correspondence with the model: %s' % c['_regime'].split(' (')[0])
         ctx.obligation('%s = model' % label, ok, 'correspondence', '' if ok else 'coq result %r' % (rr,))
@@ -222,6 +247,8 @@ def run(ctx):
     # --- both predicates over the amplitude and duration regimes (tiny / huge coefficients and theta0, phi = 0, single-step to stationary epochs,
     #     reference sizes 1e-3 .. 1e3), d = 1..5, both drivers; whole models and the equilibrium density at extreme theta0 and reference sizes
     c03_regimes.finish(ctx, regimes)
+    # --- both predicates, the canonical result and the caller's objects for every spelling of the arguments the unchanged library accepts
+    c03_types.finish(ctx, types)
     # --- the equilibrium density itself, in every numerical regime of phi_1D (gamma = 0, weak, |gamma*nu| around and far
     #     beyond the 300 overflow guards, both signs, genic and general-h branches, beta != 1)
     eq = []
@@ -304,10 +331,12 @@ def run(ctx):
     #     (the amplitude / duration regimes at thorough size on the dimensions and drivers those functions belong to)
     broken = [o for o in ctx.obligations if not o['ok'] and o['kind'] == 'translator']
     if broken and not any(not v['no_input'] for v in ctx.violations):
+        nbad_t, ht = c03_types.search(ctx, [o['name'] for o in broken])
         nbad, hs = c03_regimes.search(ctx, [o['name'] for o in broken])
+        nbad += nbad_t; hs['ncalls'] += ht['ncalls']
         if nbad == 0 and not any(v['no_input'] for v in ctx.violations):
             ctx.violation('obligation(s) on the source text no longer check: %s; the targeted search on the functions they name (%d settings, %d calls of the implementation: '
-                          'homogeneity, superposition, theta0 range, rescaling over amplitudes 1e-12..1e12, single-step to stationary epochs) found no failing input' % (
+                          'homogeneity, superposition, theta0 range, rescaling over amplitudes 1e-12..1e12, single-step to stationary epochs; every argument type / container / layout) found no failing input' % (
                               '; '.join(o['name'] for o in broken[:5]), len(hs['settings']), hs['ncalls']),
                           data={'obligations': broken[:20]}, no_input=True, broken=broken[0]['name'])
     # failing inputs first: a broken correspondence / obligation is the explanation, the input is the finding
